@@ -42,6 +42,8 @@ class Fn:
     as_method_of: str = None      # wrap in `impl X { }` (default: container if inherent)
     drop_self_impl: bool = False
     obligation: str = None        # human name of what the ensures states
+    cut_before: str = None        # fragment extraction: keep the body up to (excluding) the statement starting with this text,
+    cut_tail: str = ""            # ... and continue with this (opaque) tail expression; the dropped part is NOT verified
     as_spec: bool = False         # emit the *same body* as `pub open spec fn <name>_spec` (pure match/if code only):
                                   # lemmas over <name>_spec are then statements about the real code's table
 
@@ -291,7 +293,18 @@ def generate(unit: Unit, root, rules_mod):
         s, b, e = src.find_fn(it.name, it.container)
         orig = src.text[s:e + 1]
         where = f"{it.file}::{(it.container + '::') if it.container else ''}{it.name}"
-        t = rules_mod.apply_rules(orig, rules, ctx, meta["rule_counts"], where)
+        if it.cut_before:
+            k = orig.count(it.cut_before)
+            if k != 1:
+                raise AnchorLost(f"{where}: cut anchor {it.cut_before!r} occurs {k}x")
+            cut = orig.index(it.cut_before)
+            dropped = orig[cut:]
+            orig_kept = orig[:cut] + it.cut_tail + "\n}"
+            meta["rewrites"].append({"where": where, "kind": "fragment", "old": f"<{dropped.count(chr(10))} lines from `{it.cut_before}` to the end of the function>",
+                                     "new": it.cut_tail, "count": 1})
+        else:
+            orig_kept = orig
+        t = rules_mod.apply_rules(orig_kept, rules, ctx, meta["rule_counts"], where)
         # loop ordinals and ghost anchors refer to the text after generic rules and site rewrites
         t = apply_site_rewrites(t, it.rewrites, meta["rewrites"], where)
         if it.as_spec:
